@@ -133,5 +133,49 @@ def random_domain(seed: int, count: int, nmin: int = 6, nmax: int = 14) -> List[
     return out
 
 
+def _heads_of(g: Graph) -> int:
+    """Number of synthetic head blocks (header / tail unifications, each with its own control variable) restructuring creates."""
+    from numba_scfg.core.datastructures.basic_block import BasicBlock, SyntheticHead
+    from numba_scfg.core.datastructures.scfg import SCFG
+
+    try:
+        s = SCFG(graph={str(u): BasicBlock(name=str(u), _jump_targets=tuple(str(v) for v in g[u])) for u in range(len(g))})
+        s.restructure()
+        return sum(1 for _, b in s if isinstance(b, SyntheticHead))
+    except Exception:
+        return 99          # an aborting input is interesting too
+
+
+def _heads_chunk(args: Tuple[int, int, int, int]) -> List[Tuple[Graph, int]]:
+    seed, count, nmin, nmax = args
+    rng = random.Random(seed)
+    out = []
+    for _ in range(count):
+        g = random_closed(rng, rng.randint(nmin, nmax), p2=rng.choice([0.6, 0.8, 0.9]))
+        out.append((g, _heads_of(g)))
+    return out
+
+
+def control_heavy_domain(seed: int, count: int, nmin: int = 6, nmax: int = 9, pool: int = 6000, jobs: int = 16) -> List[Graph]:
+    """Domain K: seeded random dense closed CFGs kept only if restructuring needs at least THREE head unifications (three control variables
+    of one kind with nested lifetimes: the shape in which a mix-up of control variables shows).  The selection runs the library, so it is a
+    sampling heuristic, not an oracle: whatever is selected is judged by the same contracts as every other input."""
+    import multiprocessing as mp
+
+    ctx = mp.get_context("fork")
+    per = pool // jobs
+    with ctx.Pool(jobs) as p:
+        chunks = p.map(_heads_chunk, [(seed * 1009 + i, per, nmin, nmax) for i in range(jobs)])
+    seen = set()
+    out: List[Graph] = []
+    for ch in chunks:
+        for g, h in ch:
+            if h >= 3 and g not in seen:
+                seen.add(g)
+                out.append(g)
+    out.sort(key=lambda g: (len(g), g))
+    return out[:count]
+
+
 def graph_to_named(g: Graph) -> Dict[str, List[str]]:
     return {str(u): [str(v) for v in g[u]] for u in range(len(g))}
